@@ -455,7 +455,7 @@ class Fn:
             pre, t, ty, c = self.ex(l, env)
             if c is not NOCONST:
                 v = (c is None)
-            elif ty in ("OQ", "ON", "ObN", "OsN"):
+            elif ty in ("OQ", "ON", "ObN", "OsN", "Olabs"):
                 v = NOCONST
                 res = "(py_is_none %s)" % t
             elif ty == "none":
@@ -1098,6 +1098,9 @@ class Fn:
                 txt, ty = self.coerce(txt, ty, hint, s), hint
                 if txt == "None":
                     txt = "(@None %s)" % {"ON": "nat", "OQ": "Q", "Olabs": "(list lab)"}[hint]
+            lazy = self.spec.get("none_locals", {}).get(t.id)
+            if ty == "none" and lazy is not None:
+                txt, ty, c = "(@None %s)" % {"Olabs": "(list lab)"}[lazy], lazy, NOCONST
             if ty == "none":
                 env2 = self.bind(env, t.id, "none", None)
                 return self.emit_pre(pre, self.block(rest, env2, k, mode), mode, s)
@@ -1108,7 +1111,7 @@ class Fn:
             if isinstance(ty, tuple) and ty[0] == "sample2":
                 extra = {"removed": ()}
             keep_opt = (t.id in env and env[t.id].const is NOCONST
-                        and (env[t.id].ty, ty) in (("OQ", "Q"), ("ON", "N")))
+                        and (env[t.id].ty, ty) in (("OQ", "Q"), ("ON", "N"), ("Olabs", TList("lab"))))
             if keep_opt:                     # a "None or number" variable keeps its type
                 txt, ty = "(Some %s)" % txt, env[t.id].ty
             env2 = self.bind(env, t.id, ty, **extra)
@@ -1338,7 +1341,8 @@ class Fn:
         for n in names:
             env2[n] = recarry(n, env[n], 1)
         self.drop_all_facts(env2, names)
-        fueltxt = fuel.format(**{n: env[n].coq for n in env if isinstance(env[n], Var)})
+        fueltxt = fuel.format(**{n: ("(py_unwrap_labs %s)" % env[n].coq if env[n].ty == "Olabs" else env[n].coq)
+                                 for n in env if isinstance(env[n], Var)})
         cp = tuple_pat([vname(n) for n in names])
         bname = self.lift("while", "(s_ : %s)" % sty, "let %s := s_ in %s" % (cp if names else "_", body),
                           env, [vname(n) for n in names])
@@ -1686,6 +1690,16 @@ class FnB(Fn):
             if isinstance(op, ast.NotIn):
                 txt = "(negb %s)" % txt
             return [], txt, "B", NOCONST
+        if isinstance(r, ast.Name) and r.id in env and env[r.id].ty == "Olabs":
+            if ("nonnone", r.id) not in self.facts(env):
+                self.bad(e, "membership in a label set that may be None")
+            pre, t, ty, _ = self.ex(l, env)
+            if ty != "lab" or pre:
+                self.bad(e, "membership of %r in a label set" % (ty,))
+            txt = "(lab_mem %s (py_unwrap_labs %s))" % (t, env[r.id].coq)
+            if isinstance(op, ast.NotIn):
+                txt = "(negb %s)" % txt
+            return [], txt, "B", NOCONST
         if isinstance(r, ast.Name) and r.id in env and env[r.id].ty == TList("bnode") and self.is_bnode(l, env):
             txt = "(memb %s %s)" % (self.bnode(l, env), env[r.id].coq)
             if isinstance(op, ast.NotIn):
@@ -1717,7 +1731,7 @@ class FnB(Fn):
         if qual == "set" and not e.args and not e.keywords:
             return [], "[]", TList(None), NOCONST
         # set([t.label for t in pool]): the labels of the pooled taxa
-        if qual == "set" and len(e.args) == 1 and isinstance(e.args[0], ast.ListComp):
+        if qual == "set" and len(e.args) == 1 and isinstance(e.args[0], (ast.ListComp, ast.GeneratorExp)) and not e.keywords:
             lc = e.args[0]
             g = lc.generators[0] if len(lc.generators) == 1 else None
             if (g is not None and not g.ifs and isinstance(g.target, ast.Name) and isinstance(lc.elt, ast.Attribute)
@@ -2555,6 +2569,7 @@ PLAN = [
     dict(file="model/birthdeath.py", name="birth_death_tree", coq="gen_birth_death_tree_loop", cls="FnB",
          params={"birth_rate": "Q", "death_rate": "Q", "birth_rate_sd": "Q", "death_rate_sd": "Q"},
          kwargs={"num_extant_tips": "N", "taxon_namespace": "labs", "rng": "rng"},
+         none_locals={"taxon_pool_labels": "Olabs"},
          locals={"extinct_tips": TList("bnode"), "event_rates": TList("Q"),
                  "event_nodes": TList(TPair("bnode", "B")), "targetted_time_slices": TList("unit"), "total_time": "Q",
                  "processed_nodes": TList("bnode")},
@@ -2579,6 +2594,7 @@ PLAN = [
     dict(file="model/birthdeath.py", name="fast_birth_death_tree", coq="gen_fast_birth_death_tree_loop", cls="FnB",
          params={"birth_rate": "Q", "death_rate": "Q"},
          kwargs={"num_extant_tips": "N", "taxon_namespace": "labs", "rng": "rng"},
+         none_locals={"taxon_pool_labels": "Olabs"},
          locals={"extinct_tips": TList("bnode"), "event_rates": TList("Q"),
                  "event_nodes": TList(TPair("bnode", "B")), "targetted_time_slices": TList("unit"), "total_time": "Q",
                  "processed_nodes": TList("bnode"), "initial_lengths": TList("Q")},
